@@ -392,8 +392,23 @@ pub fn exec_op(op: &Op, ctx: Ctx) {
                     w(|w| w.alarm("C06.dead_token", "remove-with-dead-token-had-an-effect", format!("remove() with the dead token of #{} changed the loop: {:?} -> {:?}", uid, b, a)));
                 }
             }
-            if !w(|w| w.in_dispatch) {
+            let (in_dispatch, victim_running) = w(|w| (w.in_dispatch, w.srcs[uid].in_process));
+            if !in_dispatch {
                 check_released(uid);
+            } else if !victim_running && !dead {
+                // removed from somebody else's callback: the loop lets go of it when remove() returns, exactly as it
+                // does outside a dispatch (an event already collected for it changes nothing)
+                let n0 = w(|w| {
+                    w.count("release_check_inside_callback");
+                    w.alarms.iter().filter(|a| a.clause == "C06.released" || a.clause == "C06.dropped_once").count()
+                });
+                check_released(uid);
+                w(|w| {
+                    let n1 = w.alarms.iter().filter(|a| a.clause == "C06.released" || a.clause == "C06.dropped_once").count();
+                    if n1 > n0 {
+                        w.alarm("C08.effect_as_outside", "removed-source-not-released-when-remove-returned", format!("source #{} was removed from another source's callback and the loop still held it when remove() returned", uid));
+                    }
+                });
             }
         }
         Op::Disable(sel) => {
@@ -814,7 +829,7 @@ pub fn exec_op(op: &Op, ctx: Ctx) {
         Op::ProbeDead => probe_dead(&h, ctx),
         Op::Churn(n) => {
             // the same slot is taken and freed n times; every token issued on the way dies at once
-            let spec = SourceSpec { kind: Kind::Ping, lifecycle: false, prog: vec![], fault: None, via_insert: true, bad_fd: None, ready_at_insert: false, owns_adapter: false };
+            let spec = SourceSpec { kind: Kind::Ping, lifecycle: false, prog: vec![], fault: None, via_insert: true, bad_fd: None, ready_at_insert: false, owns_adapter: false, bs_fail: None };
             for _ in 0..*n {
                 if let Some(uid) = build::insert(&spec, ctx) {
                     let tok = w(|w| {
